@@ -946,14 +946,18 @@ theorem v4_v6_same_fate (c : Config) (p4 p6 : Packet) (d : Nat) (he : c.enableIP
 
 /-- **The restore input is always well-formed**: for every configuration (whose loopback CIDR is IPv4, as
     Validate demands) and both families, every `-I` position exists when its command runs, every jump
-    goes to a declared user chain, every user chain receiving a rule is declared, and every address
-    literal is of the table's family - iptables-restore / ip6tables-restore accept the whole input, so
+    goes to a declared user chain, every user chain receiving a rule is declared, every address
+    literal is of the table's family, and every match / target sits at a hook where the kernel accepts it
+    (owner and `-o` only reachable from OUTPUT, `-i` only from PREROUTING, TPROXY only in mangle/PREROUTING) - iptables-restore / ip6tables-restore accept the whole input, so
     `chainOf` is its meaning. -/
 theorem rulesOf_wellFormed (c : Config) (f : Fam) (hlo : c.loCidr.v6 = false) :
     wellFormed f (rulesOf c f) = true := by
   unfold wellFormed
   simp only [Bool.and_eq_true, List.all_eq_true]
-  refine ⟨⟨⟨?_, ?_⟩, ?_⟩, ?_⟩
+  refine ⟨⟨⟨⟨?_, ?_⟩, ?_⟩, ?_⟩, ?_⟩
+  · intro r hr
+    rcases mem_rulesOf' c f r hr with ⟨e, he, _, rfl⟩
+    exact (List.all_eq_true.mp (compile_hookE c)) e he
   · intro t _ ch _
     rw [filter_rulesOf]
     cases hon : famOn c f
@@ -1021,10 +1025,12 @@ theorem parse_loCidr_v4 (r : RawConfig) (c : Config) (h : r.parse = .ok c) : c.l
   · simp at h
   · split at h
     · simp at h
-    · rename_i lo hlo
-      repeat' split at h
-      all_goals first | (simp at h; done) | skip
-      all_goals (injection h with h; subst h; exact validLoopbackCidr_v4 _ _ hlo)
+    · split at h
+      · simp at h
+      · rename_i lo hlo
+        repeat' split at h
+        all_goals first | (simp at h; done) | skip
+        all_goals (injection h with h; subst h; exact validLoopbackCidr_v4 _ _ hlo)
 
 /-! ## Non-vacuity: concrete configurations and packets meeting the hypotheses, and the recorded corners -/
 
